@@ -52,6 +52,10 @@ impl<R: Read + Seek> ReadBox<&mut R> for MvexBox {
             // Get box header.
             let header = BoxHeader::read(reader)?;
             let BoxHeader { name, size: s } = header;
+            // Break if size zero BoxHeader, which can result in dead-loop.
+            if s == 0 {
+                break;
+            }
             if s > size {
                 return Err(Error::InvalidData(
                     "mvex box contains a box with a larger size than it",
